@@ -18,10 +18,12 @@ func newQueue(capacity uint) queue {
 	}
 
 	return queue{
-		entries:   make([]any, capacity),
-		head:      -1,
-		tail:      -1,
-		readyChan: make(chan struct{}),
+		entries: make([]any, capacity),
+		head:    -1,
+		tail:    -1,
+		// buffered: push signals without blocking, and a signal sent while the consumer is between
+		// "found the queue empty" and "waits for the signal" must not be lost.
+		readyChan: make(chan struct{}, 1),
 	}
 }
 
